@@ -130,9 +130,13 @@ class OpSummary:
         """where a by-value cell argument comes from: ('cur', side) = the current cell of a cursor
         taken out of its Option, ('consumed', side) = the cell returned by the consume helper"""
         src = a
-        for ev in self.evs:
-            if ev.ret == a and ev.callee and strip_generics(ev.callee).endswith("Option::unwrap"):
-                src = ev.args[0]
+        for _ in range(4):      # look through unwrap / as_ref / as_mut / expect chains
+            hop = None
+            for ev in self.evs:
+                if ev.ret == src and ev.callee and strip_generics(ev.callee).rsplit("::", 1)[-1] in ("unwrap", "as_ref", "as_mut", "expect"):
+                    hop = ev.argvals[0] if (ev.argvals and ev.argvals[0] is not None) else ev.args[0]
+            if hop is None: break
+            src = hop
         if env is not None: src = self.resolve_gated(src, env)
         for ev in self.evs:
             if ev.ret == src and plain(ev.callee) in (CONSP, CONS): return ("consumed", self.iter_side(ev.args[1]))
@@ -245,7 +249,10 @@ class OpSummary:
         if n == NEXT: return ("adv", self.iter_side(ev.args[0]))
         if n == CONS: return ("consume", self.cell_side(ev.args[0]), self.iter_side(ev.args[1]))
         if n == CONSP: return ("consume_partial", self.cell_side(ev.args[0]), self.iter_side(ev.args[1]))
-        if n == DOR: return ("delegate_or", self.cell_side(ev.args[1]), self.cell_origin(ev.args[2], env), self.iter_side(ev.args[3]))
+        if n == DOR:
+            c = ev.args[2]
+            if ev.argvals and ev.argvals[2] is not None: c = ev.argvals[2]          # passed by reference
+            return ("delegate_or", self.cell_side(ev.args[1]), self.cell_origin(c, env), self.iter_side(ev.args[3]))
         if n == DXOR: return ("delegate_xor", self.cell_side(ev.args[1]), self.cell_side(ev.args[2]), self.iter_side(ev.args[3]))
         return None
 
